@@ -47,3 +47,29 @@ Theorem C15_generated_constants :
   /\ (0 < gen_limit_sync)%nat /\ (0 < gen_limit_async)%nat /\ (10 <= gen_limit_sync)%nat.
 Proof. repeat split; vm_compute; repeat constructor. Qed.
 Print Assumptions C15_generated_constants.
+
+(* several sessions on ONE transport object (open() again after close(), after a connection the
+   peer reset + close(), after a reset without close()): every session is negotiated like a first
+   one -- its data is its stream minus the negotiation, its connection gets the reply to each of
+   its commands -- for every segmentation of every session and whatever state [st] the earlier
+   sessions (any streams, cut anywhere, stopped anywhere) left on the transport object *)
+Theorem C15_sessions_invisible :
+  forall (counting : bool) (limit : nat) (tss : list (list tok)) (ss : list (list bytes)) (st : tstate),
+    (0 < limit)%nat -> Forall2 (session_ok counting limit) tss ss ->
+    run_sessions true true counting limit st ss = map (fun ts => (spec_data ts, spec_replies ts)) tss.
+Proof. exact sessions_invisible. Qed.
+Print Assumptions C15_sessions_invisible.
+
+(* an open() that keeps the negotiation state (answered-commands counter, pending control
+   sequence) of the previous session is refuted, for the counting transport by the counter and for
+   both by a session that stopped inside a command *)
+Theorem C15_kept_negotiation_state_refuted :
+  (exists tss ss, Forall2 (session_ok true 10) tss ss /\
+     run_sessions true false true 10 t_init ss <> map (fun ts => (spec_data ts, spec_replies ts)) tss) /\
+  (exists ts1 tail ts2 c2, session_ok false 10 ts2 c2 /\ toks_ok ts1 = true /\
+     (run_sessions true true false 10 t_init [[stream ts1 ++ tail]; c2]
+       = [(spec_data ts1, spec_replies ts1); (spec_data ts2, spec_replies ts2)]) /\
+     (run_sessions true false false 10 t_init [[stream ts1 ++ tail]; c2]
+       <> [(spec_data ts1, spec_replies ts1); (spec_data ts2, spec_replies ts2)])).
+Proof. exact sessions_refuted_when_negotiation_state_survives. Qed.
+Print Assumptions C15_kept_negotiation_state_refuted.
